@@ -109,6 +109,8 @@ enum Op {
     Vec(usize),
     Str(usize),
     Many(&'static str, usize),
+    /// `ByteReader::read::<D>()`
+    Read(&'static str),
     Eor(usize),
     More,
     Drain,
@@ -116,7 +118,9 @@ enum Op {
 
 const ARRAY_SIZES: [usize; 26] =
     [0, 1, 2, 3, 4, 5, 6, 7, 8, 9, 15, 16, 17, 31, 32, 33, 64, 100, 255, 256, 257, 258, 300, 512, 513, 600];
-const MANY_TYPES: [&str; 6] = ["u8", "u16", "u32", "u64", "u128", "us"];
+const MANY_TYPES: [&str; 9] = ["u8", "u16", "u32", "u64", "u128", "us", "unit", "opt", "pair"];
+/// `read_many::<()>` loops `n` times without consuming anything: keep `n` finite
+const MAX_UNIT: usize = 100_000;
 
 fn parse_op(s: &str) -> Option<Op> {
     let num = |t: &str| t.parse::<usize>().ok();
@@ -135,7 +139,13 @@ fn parse_op(s: &str) -> Option<Op> {
             if let Some(r) = s.strip_prefix('m') {
                 let (ty, n) = r.split_once(':')?;
                 let ty = MANY_TYPES.iter().find(|t| **t == ty)?;
-                Op::Many(ty, num(n)?)
+                let n = num(n)?;
+                if *ty == "unit" && n > MAX_UNIT {
+                    return None;
+                }
+                Op::Many(ty, n)
+            } else if let Some(r) = s.strip_prefix('r') {
+                Op::Read(MANY_TYPES.iter().find(|t| **t == r)?)
             } else if let Some(r) = s.strip_prefix('s') {
                 Op::Slice(num(r)?)
             } else if let Some(r) = s.strip_prefix('a') {
@@ -172,6 +182,7 @@ fn op_str(op: &Op) -> String {
         Op::Vec(n) => format!("v{}", n),
         Op::Str(n) => format!("t{}", n),
         Op::Many(t, n) => format!("m{}:{}", t, n),
+        Op::Read(t) => format!("r{}", t),
         Op::Eor(n) => format!("e{}", n),
         Op::More => "h".into(),
         Op::Drain => "d".into(),
@@ -193,6 +204,7 @@ fn op_name(op: &Op) -> &'static str {
         Op::Vec(_) => "read_vec",
         Op::Str(_) => "read_string",
         Op::Many(_, _) => "read_many",
+        Op::Read(_) => "read",
         Op::Eor(_) => "check_eor",
         Op::More => "has_more_bytes",
         Op::Drain => "drain",
@@ -234,6 +246,19 @@ fn read_array_dyn<R: ByteReader>(r: &mut R, n: usize) -> String {
     arms!(0, 1, 2, 3, 4, 5, 6, 7, 8, 9, 15, 16, 17, 31, 32, 33, 64, 100, 255, 256, 257, 258, 300, 512, 513, 600)
 }
 
+/// `None` -> 0, `Some(v)` -> v + 1
+fn enc_opt(v: &Option<u8>) -> u64 {
+    match v {
+        None => 0,
+        Some(b) => *b as u64 + 1,
+    }
+}
+
+/// `(a, b)` -> a * 65536 + b
+fn enc_pair(v: &(u8, u16)) -> u64 {
+    v.0 as u64 * 65536 + v.1 as u64
+}
+
 /// the same canonicalisation for every `ByteReader`
 fn apply<R: ByteReader>(r: &mut R, op: &Op, limit: usize) -> String {
     match op {
@@ -255,7 +280,21 @@ fn apply<R: ByteReader>(r: &mut R, op: &Op, limit: usize) -> String {
             "u32" => res(r.read_many::<u32>(*n), list),
             "u64" => res(r.read_many::<u64>(*n), list),
             "u128" => res(r.read_many::<u128>(*n), list),
-            _ => res(r.read_many::<usize>(*n), list),
+            "us" => res(r.read_many::<usize>(*n), list),
+            "unit" => res(r.read_many::<()>(*n), |v| list(v.iter().map(|_| 0u8).collect())),
+            "opt" => res(r.read_many::<Option<u8>>(*n), |v| list(v.iter().map(enc_opt).collect())),
+            _ => res(r.read_many::<(u8, u16)>(*n), |v| list(v.iter().map(enc_pair).collect())),
+        },
+        Op::Read(t) => match *t {
+            "u8" => res(r.read::<u8>(), |v| v.to_string()),
+            "u16" => res(r.read::<u16>(), |v| v.to_string()),
+            "u32" => res(r.read::<u32>(), |v| v.to_string()),
+            "u64" => res(r.read::<u64>(), |v| v.to_string()),
+            "u128" => res(r.read::<u128>(), |v| v.to_string()),
+            "us" => res(r.read::<usize>(), |v| v.to_string()),
+            "unit" => res(r.read::<()>(), |_| "0".into()),
+            "opt" => res(r.read::<Option<u8>>(), |v| enc_opt(&v).to_string()),
+            _ => res(r.read::<(u8, u16)>(), |v| enc_pair(&v).to_string()),
         },
         Op::Eor(n) => res(r.check_eor(*n), |_| "ok".into()),
         Op::More => r.has_more_bytes().to_string(),
@@ -310,6 +349,33 @@ fn pure_step(data: &[u8], pos: &mut usize, op: &Op, limit: usize) -> String {
             }
         }
     };
+    let elem = |pos: &mut usize, t: &str| -> String {
+        match t {
+            "u8" => int(pos, 1),
+            "u16" => int(pos, 2),
+            "u32" => int(pos, 4),
+            "u64" => int(pos, 8),
+            "u128" => int(pos, 16),
+            "us" => usize_(pos),
+            "unit" => "0".into(),
+            "opt" => match take(pos, 1) {
+                None => "eof".into(),
+                Some(f) if f[0] == 0 => "0".into(),
+                Some(f) if f[0] == 1 => match take(pos, 1) {
+                    Some(v) => (v[0] as u64 + 1).to_string(),
+                    None => "eof".into(),
+                },
+                Some(_) => "err".into(),
+            },
+            _ => match take(pos, 1) {
+                None => "eof".into(),
+                Some(a) => match take(pos, 2) {
+                    Some(b) => (a[0] as u64 * 65536 + le(&b) as u64).to_string(),
+                    None => "eof".into(),
+                },
+            },
+        }
+    };
     match op {
         Op::U8 => int(pos, 1),
         Op::Peek => {
@@ -347,21 +413,15 @@ fn pure_step(data: &[u8], pos: &mut usize, op: &Op, limit: usize) -> String {
         Op::Many(t, n) => {
             let mut out = vec![];
             for _ in 0..*n {
-                let r = match *t {
-                    "u8" => int(pos, 1),
-                    "u16" => int(pos, 2),
-                    "u32" => int(pos, 4),
-                    "u64" => int(pos, 8),
-                    "u128" => int(pos, 16),
-                    _ => usize_(pos),
-                };
-                if r == "eof" {
+                let r = elem(pos, t);
+                if r == "eof" || r == "err" {
                     return r;
                 }
                 out.push(r);
             }
             list(out)
         },
+        Op::Read(t) => elem(pos, t),
         Op::Eor(n) => {
             if rem >= *n {
                 "ok".into()
@@ -414,6 +474,9 @@ fn run_line(line: &str) -> Outcome {
     // the reference: the in-memory reader over the bytes the source delivers before it first signals the end
     let visible = &data[..prefix_before_zero(data.len(), &sizes)];
     let mut slice = SliceReader::new(visible);
+    // the other in-memory reader the crate offers (`impl ByteReader for std::io::Cursor`)
+    let mut cursor = std::io::Cursor::new(visible.to_vec());
+    let mut cursor_ok = true;
     let mut ppos = 0usize;
 
     let mut outs: Vec<String> = vec![];
@@ -454,6 +517,22 @@ fn run_line(line: &str) -> Outcome {
                 Err(info) => {
                     slice_ok = false;
                     o = o.fail(format!("slice.{}.panic", op_name(op)), format!("SliceReader panicked on `{}`: {}", op_str(op), info));
+                },
+            }
+        }
+        if cursor_ok {
+            match guarded(|| apply(&mut cursor, op, limit)) {
+                Ok(s) if s == want => {},
+                Ok(s) => {
+                    cursor_ok = false;
+                    o = o.fail(
+                        format!("cursor.{}.value", op_name(op)),
+                        format!("Cursor returned {} on `{}` where the bytes say {}", s, op_str(op), want),
+                    );
+                },
+                Err(info) => {
+                    cursor_ok = false;
+                    o = o.fail(format!("cursor.{}.panic", op_name(op)), format!("Cursor panicked on `{}`: {}", op_str(op), info));
                 },
             }
         }
@@ -616,7 +695,16 @@ fn rand_op(rng: &mut Rng, rem: usize) -> Op {
         20 | 21 => Op::Usize,
         22 | 23 => Op::Vec(rand_n(rng, rem)),
         24 => Op::Str(rand_n(rng, rem).min(60)),
-        25 | 26 => Op::Many(*rng.pick(&MANY_TYPES), rng.range(0, 9) as usize),
+        25 => Op::Many(*rng.pick(&MANY_TYPES), rng.range(0, 9) as usize),
+        26 => {
+            if rng.chance(1, 2) {
+                Op::Read(*rng.pick(&MANY_TYPES))
+            } else {
+                let t = *rng.pick(&MANY_TYPES);
+                let n = rand_n(rng, rem);
+                Op::Many(t, if t == "unit" { n.min(700) } else { n })
+            }
+        },
         27 | 28 | 29 => {
             let n = match rng.below(7) {
                 6 => rand_n(rng, rem),
@@ -731,6 +819,296 @@ fn typed_history(rng: &mut Rng, max_len: usize, nops: usize) -> (Vec<u8>, Vec<Op
     (data, ops)
 }
 
+/// structured streams: constant bytes, runs, alternations, a single non-zero byte, ...
+fn styled_data(rng: &mut Rng, len: usize) -> Vec<u8> {
+    match rng.below(10) {
+        0 => vec![0u8; len],                      // read_usize sees the 9-byte form everywhere, bools false
+        1 => vec![0xffu8; len],
+        2 => vec![1u8; len],                      // 1-byte vint 0, bool true, Some(1)
+        3 => vec![0x80u8; len],                   // 8-byte vints
+        4 => (0..len).map(|i| if i % 2 == 0 { 0 } else { 0xff }).collect(),
+        5 => (0..len).map(|i| if i % 2 == 0 { 1 } else { 0 }).collect(),
+        6 => {
+            let mut v = vec![0u8; len];
+            if len > 0 {
+                let at = rng.below(len as u64) as usize;
+                v[at] = rng.range(1, 255) as u8;
+            }
+            v
+        },
+        7 => {
+            // runs of a repeated byte starting at even and odd offsets
+            let mut v = vec![];
+            while v.len() < len {
+                let b = *rng.pick(&[0u8, 1, 2, 0x40, 0x80, 0xc3, 0xff]);
+                let run = rng.range(1, 9) as usize;
+                v.extend(std::iter::repeat(b).take(run));
+            }
+            v.truncate(len);
+            v
+        },
+        8 => (0..len).map(|i| (i % 251) as u8).collect(),
+        _ => {
+            let p = rng.range(2, 5) as usize;
+            let pat = rng.bytes(p);
+            (0..len).map(|i| pat[i % p]).collect()
+        },
+    }
+}
+
+fn nearest_array(n: usize) -> usize {
+    *ARRAY_SIZES.iter().min_by_key(|k| (**k as i64 - n.min(10_000) as i64).abs()).unwrap()
+}
+
+/// all the ways the ops can ask for exactly `n` bytes
+fn reads_of(n: usize) -> Vec<Op> {
+    let mut v = vec![Op::Slice(n), Op::Vec(n), Op::Many("u8", n)];
+    if ARRAY_SIZES.contains(&n) {
+        v.push(Op::Array(n));
+    }
+    match n {
+        1 => v.extend([Op::U8, Op::Read("u8")]),
+        2 => v.extend([Op::U16, Op::Read("u16")]),
+        3 => v.push(Op::Read("pair")),
+        4 => v.extend([Op::U32, Op::Many("u16", 2)]),
+        8 => v.extend([Op::U64, Op::Many("u32", 2), Op::Read("u64")]),
+        16 => v.extend([Op::U128, Op::Many("u64", 2)]),
+        32 => v.push(Op::Many("u128", 2)),
+        _ => {},
+    }
+    v
+}
+
+/// Histories aimed at the comparisons of `ReadAdapter`: every pair of quantities the code distinguishes
+/// (unread bytes `n` in `buf`, bytes `m` in the BufReader buffer, requested count `N`, chunk size, the
+/// 256-byte capacity, the compaction threshold `pos >= 16`, the position of the end of the stream) is put
+/// exactly on, just below and just above each other.
+fn targeted(rng: &mut Rng, emit: &mut dyn FnMut(String)) {
+    // --- (n, m, N): `n >= N`, `m + n >= N`, `buf.len() < N`, `buffer().len() >= count`
+    for &nn in &[2usize, 3, 4, 5, 8, 9, 16, 17, 32, 33] {
+        let mut ns = vec![0usize, 1, 2, nn / 2, nn - 2, nn - 1, nn, nn + 1];
+        ns.sort();
+        ns.dedup();
+        for &n in &ns {
+            for dm in [-1i64, 0, 1, 2, 7] {
+                let m = nn as i64 - n as i64 + dm;
+                if m < 1 {
+                    continue;
+                }
+                let m = m as usize;
+                // first read leaves `n` unread bytes in `buf` (n = 0: nothing is buffered), the next inner
+                // read returns `m` bytes, then single bytes / one big chunk follow
+                for tail in [1usize, 300] {
+                    let (pre, first): (Vec<Op>, usize) = if n == 0 { (vec![], 0) } else { (vec![Op::Slice(1)], n + 1) };
+                    let chunking = if first == 0 { format!("l:{},{}", m, tail) } else { format!("l:{},{},{}", first, m, tail) };
+                    // the stream ends exactly after the request, one byte earlier, or later
+                    for extra in [-1i64, 0, 7] {
+                        let len = (pre.len() + nn) as i64 + extra;
+                        let data = rng.bytes(len as usize);
+                        for r in reads_of(nn) {
+                        let look: Vec<Op> = match rng.below(5) {
+                            0 => vec![Op::Eor(nn)],
+                            1 => vec![Op::Peek],
+                            2 => vec![Op::More, Op::Eor(nn + 1)],
+                            3 => vec![Op::Eor(nn - 1), Op::Eor(n), Op::Eor(n + m), Op::Eor(n + m + 1)],
+                            _ => vec![],
+                        };
+                        let mut ops = pre.clone();
+                        ops.extend(look);
+                        ops.push(r);
+                        ops.extend([Op::Eor(1), Op::More, Op::Peek, Op::Drain, Op::More]);
+                        emit_line(emit, &data, &chunking, &ops);
+                        }
+                    }
+                }
+            }
+        }
+    }
+    // --- chunk size k against N with nothing buffered: k = N-1, N, N+1, at stream offsets 0 and 1
+    for &nn in &[2usize, 4, 8, 9, 16, 17, 255, 256, 257] {
+        for k in [nn - 1, nn, nn + 1] {
+            for off in [0usize, 1] {
+                let data = rng.bytes(2 * nn + off + 3);
+                for r in reads_of(nn) {
+                    let mut ops = vec![];
+                    if off == 1 {
+                        ops.push(Op::U8);
+                    }
+                    ops.extend([r.clone(), Op::Eor(nn), r.clone(), Op::Drain]);
+                    emit_line(emit, &data, &format!("c{}", k), &ops);
+                }
+            }
+        }
+    }
+    // --- compaction threshold: `pos` = 15, 16, 17 (and more) consumed bytes at the front of `buf`, then a
+    //     read_slice that does / does not fit the remaining capacity, with few / >= 256 unread bytes
+    let prefixes: [(&[Op], usize); 6] = [
+        (&[Op::Slice(1), Op::Array(9), Op::Array(5)], 15),
+        (&[Op::Slice(1), Op::Array(15)], 16),
+        (&[Op::Slice(2), Op::Array(15)], 17),
+        (&[Op::Slice(16)], 16),
+        (&[Op::Slice(17), Op::U8, Op::U8], 19),
+        (&[Op::Slice(1), Op::Array(31), Op::Usize], 33),
+    ];
+    for chunk in ["c20", "c100", "c256", "l:300,1,256", "c1", "c7"] {
+        for (pre, _) in prefixes.iter() {
+            for n2 in [1usize, 2, 30, 100, 238, 239, 240, 255, 256, 257, 300, 600] {
+                let data = if rng.chance(1, 3) { styled_data(rng, 900) } else { rng.bytes(900) };
+                let mut ops: Vec<Op> = pre.to_vec();
+                ops.push(Op::Slice(n2));
+                let n3 = *rng.pick(&[1usize, 17, 100, 256, 257, 300]);
+                ops.extend([Op::Peek, Op::Vec(n3), Op::U16, Op::Slice(n2), Op::Drain]);
+                emit_line(emit, &data, chunk, &ops);
+            }
+        }
+    }
+    // --- state carried across a failed call: an over-long read buffers everything and sets guaranteed_eof
+    for len in [0usize, 1, 2, 5, 17, 255, 256, 257, 300] {
+        for ch in FIXED {
+            let data = rng.bytes(len);
+            let fails: Vec<Op> = vec![
+                Op::Slice(len + 1),
+                Op::Vec(len + 300),
+                Op::Str(len + 1),
+                Op::Array(*ARRAY_SIZES.iter().find(|k| **k > len).unwrap_or(&600)),
+                Op::Many("u64", len / 8 + 1),
+                Op::Many("us", len + 1),
+                Op::U128,
+                Op::Slice(usize::MAX),
+            ];
+            for f in fails {
+                let k = if len == 0 { 0 } else { rng.below(len as u64) as usize };
+                let follow: Vec<Op> = vec![
+                    Op::More,
+                    Op::Peek,
+                    Op::Eor(0),
+                    Op::Eor(1),
+                    Op::Eor(len),
+                    Op::Eor(len + 1),
+                    Op::Slice(k),
+                    Op::Eor(len - k),
+                    Op::Eor(len - k + 1),
+                    Op::More,
+                    Op::U8,
+                    Op::Peek,
+                    Op::Slice(len.saturating_sub(k + 1)),
+                    Op::More,
+                    Op::Peek,
+                    Op::Eor(1),
+                    Op::U8,
+                    Op::Slice(0),
+                    Op::Array(0),
+                    Op::Drain,
+                    Op::More,
+                ];
+                let mut ops = vec![f];
+                // a random sub-sequence, order kept
+                for o in follow {
+                    if rng.chance(2, 3) {
+                        ops.push(o);
+                    }
+                }
+                emit_line(emit, &data, ch, &ops);
+            }
+        }
+    }
+    // --- the exact end of the stream: everything read by one call, then every op at the end, twice
+    for len in [1usize, 2, 4, 8, 16, 17, 255, 256, 257, 512] {
+        for ch in ["c1", "c3", "c255", "c256", "c257", "c100000", "l:5,0", "l:256,0,7"] {
+            let data = rng.bytes(len);
+            for r in reads_of(len) {
+                let tail = [
+                    Op::More,
+                    Op::Peek,
+                    Op::Eor(0),
+                    Op::Eor(1),
+                    Op::U8,
+                    Op::Slice(0),
+                    Op::Slice(1),
+                    Op::Array(0),
+                    Op::Array(1),
+                    Op::Usize,
+                    Op::Bool,
+                    Op::Many("unit", 3),
+                    Op::Many("u8", 0),
+                    Op::Read("opt"),
+                ];
+                let mut ops = vec![r];
+                for _ in 0..2 {
+                    for o in tail.iter() {
+                        if rng.chance(1, 2) {
+                            ops.push(o.clone());
+                        }
+                    }
+                }
+                ops.push(Op::Drain);
+                emit_line(emit, &data, ch, &ops);
+            }
+        }
+    }
+    // --- the 256-byte BufReader: read sizes 254..258 at offsets 0..2 under chunks around 256
+    for ch in ["c255", "c256", "c257", "c1", "c100000", "l:256,1", "l:1,256", "l:255,2"] {
+        for off in [0usize, 1, 2] {
+            for n in [254usize, 255, 256, 257, 258] {
+                let dl = *rng.pick(&[off + n, off + n + 1, 2 * n + off, 700]);
+                let data = rng.bytes(dl);
+                let mut ops = vec![];
+                for _ in 0..off {
+                    ops.push(Op::U8);
+                }
+                let r = if ARRAY_SIZES.contains(&n) && rng.chance(1, 2) { Op::Array(n) } else { Op::Slice(n) };
+                ops.extend([Op::Eor(n), r.clone(), Op::More, r, Op::Drain]);
+                emit_line(emit, &data, ch, &ops);
+            }
+        }
+    }
+    // --- zero-width and composite element types, counts against the number of bytes left
+    for len in [0usize, 1, 3, 6, 40] {
+        for ch in ["c1", "c2", "c100000"] {
+            for t in ["unit", "opt", "pair"] {
+                for n in [0usize, 1, 2, len, len + 1, 300] {
+                    let data = if t == "opt" { styled_data(rng, len).iter().map(|b| b % 3).collect() } else { rng.bytes(len) };
+                    emit_line(emit, &data, ch, &[Op::Many(t, n), Op::More, Op::Read(t), Op::Many(t, 1), Op::Drain]);
+                }
+            }
+        }
+    }
+}
+
+/// streams beyond 2^16 bytes: lengths past the one- and two-byte prefixes, and `read_many` counts on, below
+/// and above its pre-allocation cap of 2^16 bytes (65536 / size_of::<D>() elements)
+fn big_streams(rng: &mut Rng, tier: Tier, emit: &mut dyn FnMut(String)) {
+    let len = 66_000usize;
+    let random = rng.bytes(len);
+    let zeros = vec![0u8; len]; // `None`, false, 9-byte vints
+    let ones = vec![1u8; len]; // 1-byte vints
+    let caps: [(&str, usize, &Vec<u8>); 9] = [
+        ("u8", 65536, &random),
+        ("u16", 32768, &random),
+        ("u32", 16384, &random),
+        ("u64", 8192, &random),
+        ("u128", 4096, &random),
+        ("us", 8192, &ones),
+        ("unit", 65536, &random),
+        ("opt", 32768, &zeros),
+        ("pair", 16384, &random),
+    ];
+    let chunkings: &[&str] = if tier == Tier::Quick { &["c256", "l:300,7"] } else { &["c256", "l:300,7", "c255", "c100000", "l:1,257"] };
+    for (t, cap, data) in caps.iter() {
+        for ch in chunkings {
+            for n in [cap - 1, *cap, cap + 1, cap + 2, cap + 100] {
+                emit_line(emit, data, ch, &[Op::U8, Op::Many(t, n), Op::More, Op::Eor(1), Op::U16]);
+            }
+        }
+    }
+    for ch in chunkings {
+        for n in [65535usize, 65536, 65537, 65999] {
+            emit_line(emit, &random, ch, &[Op::Slice(n), Op::Peek, Op::Eor(len - n), Op::Eor(len - n + 1), Op::Vec(len - n), Op::More]);
+            emit_line(emit, &random, ch, &[Op::U8, Op::Vec(n), Op::U32, Op::Slice(len), Op::More, Op::U8]);
+        }
+    }
+}
+
 fn emit_line(emit: &mut dyn FnMut(String), data: &[u8], chunking: &str, ops: &[Op]) {
     let o: Vec<String> = ops.iter().map(op_str).collect();
     emit(format!("{} {} {}", hex(data), chunking, o.join(";")));
@@ -795,13 +1173,15 @@ impl Prop for P {
                 emit_line(emit, &d2, ch, &[Op::Slice(2), Op::Usize, Op::Peek, Op::Usize, Op::More, Op::Drain]);
             }
         }
+        targeted(rng, emit);
+        big_streams(rng, tier, emit);
         // --- random histories
         for i in 0..n {
             let nops = rng.range(1, 40) as usize;
             let (data, mut ops) = match i % 4 {
                 0 | 1 => {
                     let len = if rng.chance(1, 3) { *rng.pick(&LENS) } else { rng.range(0, 700) as usize };
-                    let mut data = rng.bytes(len);
+                    let mut data = if rng.chance(1, 5) { styled_data(rng, len) } else { rng.bytes(len) };
                     // sprinkle bytes that make read_bool / read_usize / read_string interesting
                     for b in data.iter_mut() {
                         if rng.chance(1, 4) {
@@ -834,6 +1214,23 @@ impl Prop for P {
                     (data, ops)
                 },
             };
+            if rng.chance(1, 6) {
+                // a look-ahead before every call
+                let mut with: Vec<Op> = vec![];
+                let mut pos = 0;
+                for op in ops.drain(..) {
+                    let rem = data.len() - pos;
+                    with.push(match rng.below(4) {
+                        0 => Op::Peek,
+                        1 => Op::More,
+                        2 => Op::Eor(rem.min(rng.range(0, 20) as usize)),
+                        _ => Op::Eor(rem + rng.below(2) as usize),
+                    });
+                    pure_step(&data, &mut pos, &op, data.len() + 8);
+                    with.push(op);
+                }
+                ops = with;
+            }
             if rng.chance(3, 4) {
                 ops.push(Op::Drain);
                 if rng.chance(1, 2) {
@@ -924,7 +1321,9 @@ impl Prop for P {
         "one case = one whole history (stream, chunking of the source, op sequence of up to 41 ops); streams of 0..700 bytes \
          (random, ByteWriter-encoded typed values incl. every vint64 length, valid and invalid UTF-8, truncated), chunkings \
          all-1-byte, fixed 2/3/7/255/256/257, whole-stream, random size lists, lists with Ok(0) reads; every return value of \
-         ReadAdapter is compared with SliceReader on the same bytes (and with a pure function on the slice); a case is \
+         ReadAdapter is compared with SliceReader on the same bytes (and with a pure function on the slice); plus targeted grids putting unread-buffer length, BufReader-buffer length, \
+         requested count, chunk size, 256, the compaction threshold and the end of the stream on / below / above each other, streams of 66000 bytes \
+         with read_many counts around its 2^16-byte pre-allocation cap, zero-width and composite element types, histories continued after failed calls; a case is \
          non-trivial when the stream is non-empty and at least one op returns a value; distinct by hash of the op line"
     }
 }
